@@ -21,10 +21,11 @@ Two layers (DESIGN.md §4/C01).
   `PUSO._create_pubo → to_pubo/to_puso/to_qubo/to_quso` with their shortcuts.
 
 Labels: the model `M` has labels that are abstract ids (`Var`, order = `ordering_key` order); `mapping` sends
-them to `0..n-1`; `n = num_binary_variables` is an input (bookkeeping state of the object; for the PUSO routes
-the code reads it from the intermediate PUBO `puso_to_pubo(self)`, whose count equals the PUSO's own in the
-refreshed state — validated by the correspondence, which sees the ancilla labels).  `deg = None` reads the
-cached `self.degree`; the model computes the degree of the terms (equal in the refreshed state).
+them to integer labels; `n = num_binary_variables` and (in the `…C` forms) `cdeg = degree`, the cached values,
+are inputs — the bookkeeping state of the object, refreshed or stale.  For the PUSO routes `_create_pubo` hands
+the temporary PUBO the PUSO's own mapping and (upstream fix 77284a9) its `num_binary_variables`.
+`reduceDegree / routeBool / routeSpin / route` are the refreshed-state forms (`cdeg` = the exact degree of the
+terms); `reduceDegreeC / routeBoolC / routeSpinC / routeC` take the cached degree as it is.
 -/
 namespace Qv.Reduce
 open Qv
@@ -77,7 +78,7 @@ def specStep (lam : Rat) (st : RSt) (key : Key) (s : Step) : Except String (RSt 
   else if !(key.contains s.x && key.contains s.y) then .error "x or y not in the current key"
   else
     let D' := addGadget st.D lam s.x s.y s.z
-    let key' := s.z :: remove2 key s.x s.y
+    let key' := insertU s.z (remove2 key s.x s.y)
     if s.fresh then
       if s.z = st.next then
         .ok ({ next := st.next + 1, red := st.red ++ [((s.x, s.y), s.z)], D := D' }, key')
@@ -407,5 +408,63 @@ def routeSpin (t : Target) (terms : Poly) (m : Mapping) (n : Nat) (deg : Option 
     else routeBool .quso P m n deg lam pairs
 
 def route (spin : Bool) := if spin then routeSpin else routeBool
+
+/-! ## The same with the cached `degree` as an input (models in any bookkeeping state) -/
+
+/-- `PUBO._reduce_degree(D, deg, lam, pairs)` on an empty `D`: `ValueError` for `deg < 2`; `deg = None` means
+the cached `self.degree` (`cdeg`; the `-inf` of a model that never had a term is passed as 0) -/
+def reduceDegreeC (terms : Poly) (m : Mapping) (n cdeg : Nat) (deg : Option Nat) (lam : Lam)
+    (pairs : List Key) : Except Err Out :=
+  match deg with
+  | some d => if d < 2 then .error .value else reduceCore terms m n d lam pairs
+  | none => reduceCore terms m n cdeg lam pairs
+
+def routeBoolC (t : Target) (terms : Poly) (m : Mapping) (n cdeg : Nat) (deg : Option Nat) (lam : Lam)
+    (pairs : List Key) : Except Err RouteOut :=
+  match t with
+  | .pubo =>
+    match reduceDegreeC terms m n cdeg deg lam pairs with
+    | .error e => .error e
+    | .ok o => .ok { res := o.D, red := some o, pubo := terms }
+  | .qubo =>
+    match reduceDegreeC terms m n cdeg (some 2) lam pairs with
+    | .error e => .error e
+    | .ok o => .ok { res := o.D, red := some o, pubo := terms }
+  | .puso =>
+    match reduceDegreeC terms m n cdeg deg lam pairs with
+    | .error e => .error e
+    | .ok o => .ok { res := puboToPuso o.D, red := some o, pubo := terms }
+  | .quso =>
+    match reduceDegreeC terms m n cdeg (some 2) lam pairs with
+    | .error e => .error e
+    | .ok o =>
+      match quboToQuso o.D [] with
+      | .error e => .error e
+      | .ok L => .ok { res := L, red := some o, pubo := terms }
+
+/-- `PUSO.to_pubo / to_puso / to_qubo / to_quso`.  The shortcuts read the PUSO's cached `degree` (`cdeg`); the
+temporary PUBO `P = puso_to_pubo(self)` is a fresh object, so its own cached degree is the exact degree of its
+terms (its top-degree keys never cancel), while `_create_pubo` hands it the PUSO's `mapping` and — since
+upstream fix 77284a9 — the PUSO's `num_binary_variables` (`n`). -/
+def routeSpinC (t : Target) (terms : Poly) (m : Mapping) (n cdeg : Nat) (deg : Option Nat) (lam : Lam)
+    (pairs : List Key) : Except Err RouteOut :=
+  let P := pusoToPubo terms
+  match t with
+  | .pubo => routeBoolC .pubo P m n (degree P) deg lam pairs
+  | .qubo => routeBoolC .qubo P m n (degree P) deg lam pairs
+  | .puso =>
+    if (match deg with | none => true | some d => decide (cdeg ≤ d)) then
+      match toPusoPlain m terms [] with
+      | .error e => .error e
+      | .ok H => .ok { res := H, red := none, pubo := P }
+    else routeBoolC .puso P m n (degree P) deg lam pairs
+  | .quso =>
+    if cdeg ≤ 2 then
+      match toPusoPlain m terms [] with
+      | .error e => .error e
+      | .ok H => .ok { res := H, red := none, pubo := P }
+    else routeBoolC .quso P m n (degree P) deg lam pairs
+
+def routeC (spin : Bool) := if spin then routeSpinC else routeBoolC
 
 end Qv.Reduce
